@@ -12,6 +12,7 @@ import (
 	"github.com/jotaen/klog/klog"
 	"github.com/jotaen/klog/klog/app/cli"
 	cliutil "github.com/jotaen/klog/klog/app/cli/util"
+	"github.com/jotaen/klog/klog/service"
 
 	"klogverif/clidrv"
 	"klogverif/docgen"
@@ -95,7 +96,7 @@ func init() {
 		Title: "All evaluation views partition the same total",
 		Rule: "files of 2 (all ordered pairs) and 3 (quick: a fixed quarter of the ordered triples, thorough: all) records dated from a " + fmt.Sprint(len(c12Dates())) + "-date calendar-boundary set (week-year edges of 52/53-week years, leap days, month/quarter/year ends, years 0000/0001/0999/1000/9998/9999), " +
 			"in file order as enumerated (unsorted, descending and duplicate dates occur); record i carries a total of 2^i minutes (so a row total identifies exactly which records it contains), a should-total and, in a variant, a negative total; " +
-			"x aggregation {day, week, month, quarter, year} x {plain, --fill (span <= 800 days), --diff, --fill --diff} x date filter {none, --since/--until, --period}; plus 80 today/--now documents, plus today-ev = every EV document of C06's quick tier (one record of 3 clock-relative dates x 4 should-totals x <=2 of 8 extreme/narrow/wide/open entries, optional second record) x 3 clock readings x {--diff, --diff --now}: the complete `klog today` table (Total, Should, Diff and forecast End-Time of the current-day row, the Other row and the All row) against the reference evaluation. " +
+			"x aggregation {day, week, month, quarter, year} x {plain, --fill (span <= 800 days), --diff, --fill --diff} (every other document also with --chart) x date filter {none, --since/--until, --period}; plus 80 today/--now documents, plus today-ev = every EV document of C06's quick tier (one record of 3 clock-relative dates x 4 should-totals x <=2 of 8 extreme/narrow/wide/open entries, optional second record) x 3 clock readings x {--diff, --diff --now}: the complete `klog today` table (Total, Should, Diff and forecast End-Time of the current-day row, the Other row and the All row) against the reference evaluation. " +
 			"A case = (file, report flags); non-trivial = at least one row; distinct by hash(text, flags).",
 		Assumptions: []string{
 			"independent bucketing by the specmodel calendar; rows are read back from `klog report --decimal --no-style` by fixed label columns (year, month, weekday/day, week, quarter) and by the '=' ruler for value columns",
@@ -454,10 +455,15 @@ func c12Doc(c *fw.Ctx, fam string, idx, n int) {
 				if diff {
 					args = append(args, "--diff")
 				}
+				// every other document also with the bar chart (an extra column to the right of the values)
+				chart := idx%2 == 0
+				if chart {
+					args = append(args, "--chart")
+				}
 				args = append(args, f.args...)
 				cs := c12Case{fam, idx, fw.Txt(text), args}
 				c.Eval(1)
-				cmd := &cli.Report{AggregateBy: agg, Fill: fill, DiffArgs: cliutil.DiffArgs{Diff: diff}, FilterArgs: f.fa,
+				cmd := &cli.Report{AggregateBy: agg, Fill: fill, Chart: chart, DiffArgs: cliutil.DiffArgs{Diff: diff}, FilterArgs: f.fa,
 					DecimalArgs: cliutil.DecimalArgs{Decimal: true}, NoStyleArgs: cliutil.NoStyleArgs{NoStyle: true}, WarnArgs: cliutil.WarnArgs{NoWarn: true}, InputFilesArgs: in}
 				r := clidrv.Exec(home, clidrv.Opts{Now: fixedNow}, cmd)
 				if (idx+caseNo)%50 == 0 {
@@ -703,7 +709,6 @@ func c12Today(c *fw.Ctx, i int) {
 	_ = docgen.DefaultLayout
 }
 
-
 // c12TodayEV compares the complete `klog today --diff [--now]` table with the reference evaluation:
 // current-day row (today's records, else yesterday's), Other row, All row; Total/Should/Diff per row and the
 // forecast End-Time = now + (should - total), shown when it lies between <0:00 and 23:59>, else "???".
@@ -770,9 +775,9 @@ func c12TodayEV(c *fw.Ctx, i int) {
 			cur, label = yest, "Yesterday"
 		}
 		type row struct {
-			label                string
+			label               string
 			total, should, diff string
-			end                  string
+			end                 string
 		}
 		fmtEnd := func(rs []sm.Record) string {
 			if len(cur) == 0 {
@@ -840,5 +845,38 @@ func c12TodayEV(c *fw.Ctx, i int) {
 			return
 		}
 		c.Outcome("today-ev")
+		if !now {
+			continue
+		}
+		// filter first, then close: `klog total --now --entry-type T` and the grand total of `klog report` under the same
+		// flags equal the reference total of the FILTERED records with their open ranges closed at the clock reading
+		for _, ty := range []struct {
+			name string
+			et   service.EntryType
+			kind sm.EntryKind
+		}{{"open-range", service.ENTRY_TYPE_OPEN_RANGE, sm.KOpenRange}, {"range", service.ENTRY_TYPE_RANGE, sm.KRange}, {"duration", service.ENTRY_TYPE_DURATION, sm.KDuration}} {
+			kind := ty.kind
+			sel := c13Apply(ref.Records, []c13Clause{{kind: "type", entryOK: func(_ sm.Record, e sm.Entry) bool { return e.Kind == kind }}})
+			closedSel, okSel, _ := sm.CloseAt(sel, today, nowMins)
+			if !okSel || len(sel) == 0 {
+				continue
+			}
+			want := sm.Total(closedSel)
+			fa := cliutil.FilterArgs{EntryType: ty.et}
+			targs := []string{"total", "--now", "--entry-type", ty.name, fmt.Sprintf("@%d:%02d", clk[0], clk[1])}
+			tcs := c12Case{"today-ev", i, fw.Txt(text), targs}
+			rt := clidrv.Exec(home, o, &cli.Total{FilterArgs: fa, NowArgs: cliutil.NowArgs{Now: true}, DecimalArgs: cliutil.DecimalArgs{Decimal: true}, NoStyleArgs: cliutil.NoStyleArgs{NoStyle: true}, WarnArgs: cliutil.WarnArgs{NoWarn: true}, InputFilesArgs: fileArgs(path)})
+			if rt.Panicked || rt.Code != 0 || !strings.HasPrefix(rt.Stdout, fmt.Sprintf("Total: %d\n", want)) {
+				c.Violation("total-filter-now", tcs, fmt.Sprintf("`klog total --now --entry-type %s` (exit %d, panic %v) prints %q; the filtered records, closed at %d:%02d, total %d min", ty.name, rt.Code, rt.PanicVal, rt.Stdout, clk[0], clk[1], want))
+				return
+			}
+			rr := clidrv.Exec(home, o, &cli.Report{AggregateBy: "day", FilterArgs: fa, NowArgs: cliutil.NowArgs{Now: true}, DecimalArgs: cliutil.DecimalArgs{Decimal: true}, NoStyleArgs: cliutil.NoStyleArgs{NoStyle: true}, WarnArgs: cliutil.WarnArgs{NoWarn: true}, InputFilesArgs: fileArgs(path)})
+			lines := strings.Split(strings.TrimRight(rr.Stdout, "\n"), "\n")
+			if rr.Panicked || rr.Code != 0 || len(lines) < 3 || strings.TrimSpace(lines[len(lines)-1]) != strconv.Itoa(want) {
+				c.Violation("report-filter-now", tcs, fmt.Sprintf("`klog report --now --entry-type %s` (exit %d) ends with grand total %q, expected %d\n%s", ty.name, rr.Code, lines[len(lines)-1], want, rr.Stdout))
+				return
+			}
+			c.Count("filter_now_cases", 1)
+		}
 	}
 }
